@@ -29,6 +29,16 @@ type gLease struct {
 // verif:harness props=C03,C04,C05 tier=quick native=yes weight=400
 // verif:bounds history of K=3 (thorough 4) pull-API operations (the transport-neutral Server.Dequeue/AckSingle/NackSingle/Extend used by HTTP and gRPC) on a REAL MemoryStore with 2 messages of one route (the second one scheduled an arbitrary time ahead); before every operation the clock advances by an arbitrary amount (0..1h, symbolic, so every expiry/not-before boundary is hit to the nanosecond); operation from {dequeue batch 1, dequeue batch 2, ack, nack with arbitrary delay, dead-letter, extend by an arbitrary amount}, lease TTL arbitrary (0,1h]; presented lease id = any id handed out so far in this history (incl. ids of earlier lease epochs) or an unknown id; a ghost copy of the contract is kept alongside and compared after every step
 func VerifC03PullHistory() {
+	pullHistory(false)
+}
+
+// verif:harness props=C04,C03 tier=quick native=yes weight=300
+// verif:bounds the same history harness (K=3 steps, thorough 4, real MemoryStore, ghost contract, arbitrary clock advances) with the BATCH operations in the mix: operation from {dequeue batch 2, ack, nack, batch ack and batch nack of two lease ids drawn from {first handed out, second handed out, unknown}}
+func VerifC04PullBatchHistory() {
+	pullHistory(true)
+}
+
+func pullHistory(batchOps bool) {
 	steps := 3
 	if vrt.Thorough() {
 		steps = 4
@@ -52,7 +62,12 @@ func VerifC03PullHistory() {
 		adv := vrt.Duration("clock-advance")
 		vrt.Assume(adv >= 0 && adv <= time.Hour)
 		now = now.Add(adv)
-		op := vrt.Choose("op", 6)
+		op := 0
+		if batchOps {
+			op = []int{1, 2, 3, 6, 7}[vrt.Choose("op", 5)]
+		} else {
+			op = vrt.Choose("op", 6)
+		}
 		if op <= 1 {
 			// ---------------- dequeue ----------------
 			batch := op + 1
@@ -108,9 +123,66 @@ func VerifC03PullHistory() {
 				leases = append(leases, gLease{id: it.LeaseID, msg: idx})
 				vrt.Cover("history.leased")
 			}
+		} else if op >= 6 {
+			// ---------------- batch ack / batch nack with two different lease ids ----------------
+			p1 := []int{0, 1, 9}[vrt.Choose("batch-lease-1", 3)]
+			p2 := []int{0, 1, 9}[vrt.Choose("batch-lease-2", 3)]
+			ids := []string{"unknown-lease", "other-unknown-lease"}
+			lis := []int{-1, -1}
+			if p1 < len(leases) {
+				ids[0], lis[0] = leases[p1].id, p1
+			}
+			if p2 < len(leases) && p2 != p1 {
+				ids[1], lis[1] = leases[p2].id, p2
+			}
+			var res LeaseBatchResult
+			var operr *OpError
+			if op == 6 {
+				res, operr = s.AckBatch("/r", ids)
+			} else {
+				res, operr = s.NackBatch("/r", ids, false, "", 0)
+			}
+			vrt.Assert("C04.history.batch-call-itself-succeeds", operr == nil)
+			wantOK, wantConflicts, dups := 0, 0, 0
+			for k := 0; k < 2; k++ {
+				var m *gMsg
+				if lis[k] >= 0 {
+					m = &g[leases[lis[k]].msg]
+					if m.state != queue.StateLeased || m.lease != ids[k] {
+						m = nil
+					}
+				}
+				switch {
+				case m != nil && now.Before(m.until):
+					wantOK++
+					if op == 6 {
+						m.state, m.lease = queue.StateDelivered, ""
+						leases[lis[k]].kind = 1
+					} else {
+						m.state, m.lease, m.next = queue.StateQueued, "", now
+						leases[lis[k]].kind = 2
+					}
+				case m != nil:
+					wantConflicts++
+					m.state, m.lease, m.next = queue.StateQueued, "", now
+				default:
+					wantConflicts++
+					if lis[k] >= 0 && ((op == 6 && leases[lis[k]].kind == 1) || (op == 7 && leases[lis[k]].kind == 2)) {
+						dups++ // may be answered as the idempotent success of a duplicate instead
+					}
+				}
+			}
+			vrt.Cover("history.batch-op")
+			okCounts := res.Succeeded >= wantOK && res.Succeeded <= wantOK+dups && res.Succeeded+len(res.Conflicts) == 2 && len(res.Conflicts) <= wantConflicts
+			vrt.Assert("C04.history.batch-applies-the-single-lease-rule-per-id", okCounts)
 		} else {
 			// ---------------- ack / nack / dead-letter / extend with some lease id ----------------
-			pick := vrt.Choose("presented-lease", 4)
+			pick := 0
+			if batchOps {
+				pick = []int{0, 1, 9}[vrt.Choose("presented-lease", 3)]
+			} else {
+				pick = vrt.Choose("presented-lease", 4)
+			}
 			presented := "unknown-lease"
 			li := -1
 			if pick < len(leases) {
